@@ -42,6 +42,9 @@ def report(chk, cls, name, files, summary):
     chk.cov["violation_classes"][cls] = chk.cov["violation_classes"].get(cls, 0) + 1
     if chk.cov["violation_classes"][cls] <= 4:
         chk.violation(name, files, "[%s] %s" % (cls, summary))
+        rs = os.path.join(chk.violations[-1]["replay"], "replay.sh")
+        if os.path.exists(rs):
+            os.chmod(rs, 0o755)
 
 
 # ---------------------------------------------------------------- legs (a) + (b)
